@@ -29,6 +29,9 @@ func (e *Exec) callBuiltin(b *ssa.Builtin, args []Value, call *ssa.CallCommon, d
 			}
 			return mkInt(64, uint64(len(v.M.Ents)))
 		case ChanV:
+			if e.pr != nil {
+				return e.procLen(v)
+			}
 			if v.C == nil {
 				return mkInt(64, 0)
 			}
@@ -79,6 +82,10 @@ func (e *Exec) callBuiltin(b *ssa.Builtin, args []Value, call *ssa.CallCommon, d
 		e.mapDelete(args[0], args[1])
 		return nil
 	case "close":
+		if e.pr != nil {
+			e.procClose(args[0])
+			return nil
+		}
 		c := args[0].(ChanV).C
 		if c == nil {
 			e.goPanicRuntime("close of nil channel")
